@@ -731,6 +731,32 @@ def _store(repo, rep):
               "(tempfile.mkdtemp): a configured cache directory stays",
               construct="remove-own-dir-only", where=L.where(mk),
               detail="; ".join(rdetail))
+    # ... and the loader class agrees: remove defaults to False and the
+    # directory is deleted only when the flag is set
+    mli = repo.func(LD + "ModuleLoader.__init__")
+    a_ = mli.node.args
+    nm_ = [x.arg for x in a_.args]
+    df_ = dict(zip(nm_[len(nm_) - len(a_.defaults):], a_.defaults))
+    rd_ = df_.get("remove")
+    mld = repo.func(LD + "ModuleLoader.__del__")
+    rm = [c for c in ast.walk(mld.node) if isinstance(c, ast.Call)
+          and src(c.func).endswith("rmtree")]
+    okd = bool(rm) and isinstance(rd_, ast.Constant) and rd_.value is False
+    for c in rm:
+        # the early 'if not self.remove: return' or an enclosing 'if
+        # self.remove:' -- either way rmtree runs with the flag set
+        gs = [(src(t_), v_) for t_, v_ in L.guards_of(c, mld.node)
+              if isinstance(t_, ast.expr)]
+        early = [n for n in mld.node.body if isinstance(n, ast.If)
+                 and n.lineno < c.lineno and any(
+                     isinstance(x, ast.Return) for x in n.body)]
+        pre = [(src(n.test), False) for n in early]
+        if not L.cond_holds(gs + pre, "self.remove", True):
+            okd = False
+    rep.check(okd, "R15.2", mld.qualname, "a module loader deletes its "
+              "directory only when told to (remove, default False)",
+              construct="remove-flag", where=L.where(mld),
+              detail="default %s" % (src(rd_) if rd_ is not None else "?"))
     # the installed versions enter the key as they are (a package without
     # a version as '')
     gv = repo.func("chameleon.template.get_package_versions")
